@@ -57,6 +57,9 @@ theorem q15_mul_bounds (g : Int) (hg : 0 < g ∧ g ≤ 32440) (b : Int) :
       apply Int.le_ediv_of_mul_le (by decide); have := hgb' b (by omega); omega
     omega
 
+/-- The harmonic attenuation factors are at most 0.99 (Q15) — whatever the regenerated table holds. -/
+theorem harm_table_le : ∀ g ∈ HARM_ATT_Q15, 0 < g ∧ g ≤ 32440 := by decide
+
 /-- One subframe of harmonic attenuation (PLC.c:354) never increases a tap's magnitude, strictly
     decreases a positive tap and strictly decreases the magnitude of a negative tap below −100. -/
 theorem harmStep_shrinks (lossCnt : Int) (b : Int) (hb : -32768 ≤ b ∧ b ≤ 32767) :
@@ -64,11 +67,7 @@ theorem harmStep_shrinks (lossCnt : Int) (b : Int) (hb : -32768 ≤ b ∧ b ≤ 
     (0 < b → harmStep (harmGain lossCnt) b < b) ∧
     (b < 0 → b ≤ harmStep (harmGain lossCnt) b ∧ harmStep (harmGain lossCnt) b < 0) ∧
     (b ≤ -100 → b < harmStep (harmGain lossCnt) b) := by
-  have hg := harmGain_cases lossCnt
-  have hmem : harmGain lossCnt = 32440 ∨ harmGain lossCnt = 31130 := by
-    have : HARM_ATT_Q15 = [32440, 31130] := rfl
-    rw [this] at hg; simpa using hg
-  have hgr : 0 < harmGain lossCnt ∧ harmGain lossCnt ≤ 32440 := by omega
+  have hgr : 0 < harmGain lossCnt ∧ harmGain lossCnt ≤ 32440 := harm_table_le _ (harmGain_cases lossCnt)
   obtain ⟨q1, q2, q3, q4⟩ := q15_mul_bounds (harmGain lossCnt) hgr b
   have hgi : toI16 (harmGain lossCnt) = harmGain lossCnt := toI16_id (by omega)
   unfold harmStep smulbb rshift
